@@ -64,8 +64,8 @@ open C08LiveAux in
 /-- `verref.run <code> <recs> <op>…`
     code = `real` (the code of /repo) | `m2` | `m3` (the two seeded changes, for reference only);
     recs = the record list the library is imported with: comma separated `<idhex>:<protocol>:<0|1>`
-           (id as hex of its UTF-8 bytes, `-` for the empty id is NOT available here: use a non-empty
-           id), `-` for no records;
+           (id as hex of its UTF-8 bytes, `-` for the empty id, as in `ver.init`), `-` alone for no
+           records;
     ops, in order:  `R=<recs>`  in-place replacement of KNOWN_MINECRAFT_VERSION_RECORDS;
                     `S=<idhex>:<protocol>`  minecraft.SUPPORTED_MINECRAFT_VERSIONS[id] = protocol;
                     `I1` / `I0`  minecraft.initglobals(use_known_records=True / False);
